@@ -8,6 +8,7 @@ import (
 	"testing"
 
 	kv "github.com/XiXi-2024/xixi-kv"
+	"pgregory.net/rapid"
 	"verifharness/kvh"
 )
 
@@ -251,4 +252,19 @@ func replayFuzzOpen(target string, content []byte) (fail *kvh.Fail) {
 		}
 	}
 	return nil
+}
+
+// Coverage-guided variants of two rapid properties (rapid.MakeFuzz turns the fuzzer's bytes into rapid's
+// bit stream), thorough tier only: the fuzzer's coverage feedback explores operation histories that uniform
+// random generation reaches rarely.
+func FuzzC01History(f *testing.F) {
+	f.Add([]byte{0, 1, 2, 3, 4, 5, 6, 7, 8, 9, 10, 11, 12, 13, 14, 15, 16, 17, 18, 19, 20, 21, 22, 23, 24})
+	f.Fuzz(rapid.MakeFuzz(func(t *rapid.T) {
+		runHistoryCase(t, "C01", c01Profile, func(r *kvh.Runner) bool { return r.NonTrivialBasic() })
+	}))
+}
+
+func FuzzC10Index(f *testing.F) {
+	f.Add([]byte{9, 8, 7, 6, 5, 4, 3, 2, 1, 0, 9, 8, 7, 6, 5, 4, 3, 2, 1, 0, 1, 2, 3, 4, 5, 6, 7, 8})
+	f.Fuzz(rapid.MakeFuzz(func(t *rapid.T) { c10IndexCase(t, kvh.StatsFor("C10")) }))
 }
